@@ -211,6 +211,7 @@ theorem arcInv_step (H : IdFn) {g : Graph} (hi : ArcInv g) (u : Upd) : ArcInv (g
     simp only [Graph.step]
     have h0 : ArcInv { g with polKeys := C02.mset nid key g.polKeys } := arcInv_frame hi rfl rfl
     exact arcInv_resStep (arcInv_arcPolicy H h0 nid v) _
+  | passthru c key v => exact arcInv_same (same_emit g _) hi
   | other => exact hi
 
 theorem arcInv_flush {g : Graph} (hi : ArcInv g) : ArcInv g.flush.1 := by
